@@ -2,6 +2,7 @@ package rules
 
 import (
 	"go/token"
+	"go/types"
 
 	"golang.org/x/tools/go/ssa"
 )
@@ -38,6 +39,7 @@ type factFlow struct {
 }
 
 const (
+	factPhiShift = 40 // 8 tracked boolean phis x 2 bits
 	factTagShift = 56
 	factTagMask  = uint(0xff) << factTagShift
 )
@@ -126,6 +128,70 @@ func (ff *factFlow) analyse(fn *ssa.Function, entry factSet, res func(ssa.Value)
 	in := map[*ssa.BasicBlock]factSet{}
 	in[fn.Blocks[0]] = factSet{}
 	in[fn.Blocks[0]].addAll(entry)
+	// boolean phis with a constant edge (`ok := a && b`): a vector remembers, in two bookkeeping
+	// bits per phi, the constant it got there, so that any later test of the same variable takes
+	// the matching edge only
+	phiBit := map[*ssa.Phi]uint{}
+	for _, b := range fn.Blocks {
+		for _, ins := range b.Instrs {
+			ph, ok := ins.(*ssa.Phi)
+			if !ok {
+				break
+			}
+			if bt, isB := ph.Type().Underlying().(*types.Basic); !isB || bt.Kind() != types.Bool || len(phiBit) >= 8 {
+				continue
+			}
+			for _, e := range ph.Edges {
+				if k, isK := e.(*ssa.Const); isK {
+					if _, isB := boolConst(k); isB {
+						phiBit[ph] = uint(factPhiShift + 2*len(phiBit))
+						break
+					}
+				}
+			}
+		}
+	}
+	tagPhis := func(sc, pred *ssa.BasicBlock, ev factSet) factSet {
+		if len(phiBit) == 0 {
+			return ev
+		}
+		pi := -1
+		for i, pb := range sc.Preds {
+			if pb == pred {
+				pi = i
+			}
+		}
+		if pi < 0 {
+			return ev
+		}
+		out := ev
+		for _, ins := range sc.Instrs {
+			ph, ok := ins.(*ssa.Phi)
+			if !ok {
+				break
+			}
+			sh, tracked := phiBit[ph]
+			if !tracked {
+				continue
+			}
+			var set uint
+			if k, isK := ph.Edges[pi].(*ssa.Const); isK {
+				if bv, isB := boolConst(k); isB {
+					if bv {
+						set = 1 << sh
+					} else {
+						set = 2 << sh
+					}
+				}
+			}
+			next := factSet{}
+			for v := range out {
+				next[(v&^(3<<sh))|set] = true
+			}
+			out = next
+		}
+		return out
+	}
 	type callKey struct {
 		c *ssa.Call
 		v uint
@@ -206,6 +272,13 @@ func (ff *factFlow) analyse(fn *ssa.Function, entry factSet, res func(ssa.Value)
 						}
 						return out
 					}
+				}
+			}
+		}
+		if ph, isPhi := cond.(*ssa.Phi); isPhi {
+			if sh, tracked := phiBit[ph]; tracked {
+				if f&(1<<sh) != 0 && !pol || f&(2<<sh) != 0 && pol {
+					return out // the variable is known to have the other value on this path
 				}
 			}
 		}
@@ -405,6 +478,7 @@ func (ff *factFlow) analyse(fn *ssa.Function, entry factSet, res func(ssa.Value)
 				// a successor that branches on a boolean phi of its own (short-circuit evaluation stored in
 				// a variable): the vectors remember the edge they arrive by, so that the phi's value on
 				// that edge decides the branch
+				ev = tagPhis(sc, b, ev)
 				if pi := phiCondPredIndex(sc, b); pi >= 0 {
 					tagged := factSet{}
 					for v := range ev {
